@@ -24,6 +24,9 @@ G2 = '2024-05-01 BUY VOD 100 @ 1\n2024-09-10 SELL VOD 10 @ 2\n2026-09-10 SELL VO
 DISPOSALS = [('2020-07-01', 'AAA'), ('2021-09-01', 'AAA'), ('2021-09-01', 'BBB'), ('2021-10-05', 'bbb'), ('2022-06-01', 'CCC')]
 
 
+G1_REV = ''.join(l + '\n' for l in reversed(G1.strip().split('\n')))
+
+
 def call(tool, args):
     return {'method': 'tools/call', 'params': {'name': tool, 'arguments': args}}
 
@@ -34,6 +37,9 @@ def classes(g1_json):
         'calc_json': call('calculate_report', {'transactions': g1_json}),
         'calc_year': call('calculate_report', {'transactions': G1, 'year': 2020}),
         'calc_divonly': call('calculate_report', {'transactions': DIVONLY, 'year': 2024}),
+        # the same ledger written newest first (a broker export): every SELL line stands above its security's first BUY line
+        'calc_rev': call('calculate_report', {'transactions': G1_REV}),
+        'explain_rev': call('explain_matching', {'transactions': G1_REV, 'disposal_date': DISPOSALS[0][0], 'ticker': DISPOSALS[0][1]}),
         # input sniffing: JSON after leading white space, DSL after leading blank and comment lines, JSON through the parse tool
         'calc_json_ws': call('calculate_report', {'transactions': '\n  \t' + g1_json + '\n'}),
         'calc_dsl_lead': call('calculate_report', {'transactions': '\n# my ledger [2020]\n\n' + G1}),
@@ -279,6 +285,8 @@ def _mcp_check(tier, seed):
         expect['calc_year'] = {'kind': 'result', 'digest': cli_digest(['report', '--format', 'json', '--year', '2020', 'g1.cgt'], core)}
         open(os.path.join(root, 'ref', 'divonly.cgt'), 'w').write(DIVONLY)
         expect['calc_divonly'] = {'kind': 'result', 'digest': cli_digest(['report', '--format', 'json', '--year', '2024', 'divonly.cgt'], core)}
+        open(os.path.join(root, 'ref', 'g1rev.cgt'), 'w').write(G1_REV)
+        expect['calc_rev'] = {'kind': 'result', 'digest': cli_digest(['report', '--format', 'json', 'g1rev.cgt'], core)}
         expect['parse'] = {'kind': 'result', 'digest': cli_digest(['parse', 'g1.cgt'], lambda j: j)}
         expect['parse_json'] = expect['parse']
         open(os.path.join(root, 'ref', 'g2.cgt'), 'w').write(G2)
@@ -299,6 +307,7 @@ def _mcp_check(tier, seed):
         for n, (ev, resp) in zip(failing, alone):
             if 2 not in resp:
                 findings.append({'prop': 'C20', 'kind': 'unanswered', 'case': 0, 'detail': f'a solitary {n} request was never answered', 'input': json.dumps(cls[n])[:2000], 'data': {'class': n}})
+        expect['explain_rev'] = None        # the answer of explain_0 (same question, same transactions, other line order): set below
         solo = [n for n in names if n not in expect] + ['initialize']
         with ThreadPoolExecutor(max_workers=8) as ex:
             solos = list(ex.map(lambda a: play(root, f'solo{a[0]}', [('send', a[1])] if a[1] != 'initialize' else [], cls), enumerate(solo)))
@@ -314,6 +323,7 @@ def _mcp_check(tier, seed):
                 for pr in ('C20', 'C09', 'C17'):
                     findings.append({'prop': pr, 'kind': 'explain_covers', 'case': 0, 'input': json.dumps(cls[n])[:2000], 'data': {},
                                      'detail': f'calculate_report lists this disposal but explain_matching cannot explain it: {json.dumps(resp[rid])[:300]}'})
+        expect['explain_rev'] = expect['explain_0']
         # explain_matching agrees with calculate_report / the CLI on every listed disposal (C17: same figures,
         # in full or rounded to pence with midpoints away from zero)
         rc, so, _ = run_cli(os.path.join(root, 'ref'), os.path.join(root, 'ref', 'home'), ['report', '--format', 'json', 'g1.cgt'])
